@@ -9,8 +9,6 @@ import (
 	"sync"
 	"testing"
 	"time"
-
-	"github.com/atomix/go-sdk/pkg/test"
 )
 
 // ---- child process: scenarios that kill the process from a store goroutine -----
@@ -105,7 +103,7 @@ func TestZZChildC15(t *testing.T) {
 	switch sc {
 	case "v3tx-cancel":
 		for _, variant := range []struct{ one, replay bool }{{false, true}, {true, false}} {
-			client := test.NewClient()
+			client := newAtomixClient()
 			a, err := newAPI(KindV3Tx, client)
 			if err != nil {
 				t.Fatal(err)
@@ -168,7 +166,8 @@ func pumpDemo(kind string, one bool) (bool, string) {
 }
 
 func pumpDemoRun(kind string, one bool) (bool, string) {
-	client := test.NewClient()
+	markCaseStart()
+	client := newAtomixClient()
 	defer client.Close()
 	a, err := newAPI(kind, client)
 	if err != nil {
@@ -258,4 +257,62 @@ func pumpDemoRun(kind string, one bool) (bool, string) {
 	}
 	return true, fmt.Sprintf("a watcher that stopped reading and was then cancelled with an event in flight parks the store-wide pump for good; the other watcher stays at version %d of %d (%s)",
 		w2.lastVersion(0), v, strings.TrimSpace(frames(parked)))
+}
+
+// ---- in-process demonstration of the v3 configuration store's loop-variable aliasing ----
+
+var (
+	loopMu   sync.Mutex
+	loopDone bool
+	loopRep  bool
+	loopMsg  string
+)
+
+// loopVarDemo writes three committed values in one Update of a v3
+// configuration (the generated histories hand the store one value at a time
+// while the finding is listed) and reads them back; once per process.
+func loopVarDemo() (bool, string) {
+	loopMu.Lock()
+	defer loopMu.Unlock()
+	if loopDone {
+		return loopRep, loopMsg
+	}
+	loopDone = true
+	client := newAtomixClient()
+	defer client.Close()
+	a, err := newAPI(KindV3Cfg, client)
+	if err != nil {
+		return false, err.Error()
+	}
+	ctx, cancel := context.WithTimeout(context.Background(), 30*time.Second)
+	defer cancel()
+	defer func() { _ = a.Close(ctx) }()
+	var seq uint64
+	o := a.New(0, 0, &seq)
+	if err := a.Create(ctx, o); err != nil {
+		return false, err.Error()
+	}
+	g, err := a.Get(ctx, 0, 0)
+	if err != nil {
+		return false, err.Error()
+	}
+	a.SetSpec(g, 0, &seq) // /a
+	a.SetSpec(g, 1, &seq) // /b
+	a.SetSpec(g, 2, &seq) // /c
+	want := canonVals(a.View(g).Vals)
+	if err := a.Update(ctx, g); err != nil {
+		return false, err.Error()
+	}
+	r, err := a.Get(ctx, 0, 0)
+	if err != nil {
+		return false, err.Error()
+	}
+	got := canonVals(a.View(r).Vals)
+	if got == want {
+		loopRep, loopMsg = false, "three values written in one Update read back intact"
+		return loopRep, loopMsg
+	}
+	loopRep = true
+	loopMsg = fmt.Sprintf("v3 configuration store: one Update carrying {%s} is read back as {%s}: every path written in one call gets the value of the last iterated map entry (`&pv` of the range variable, operations encoded at Commit)", want, got)
+	return loopRep, loopMsg
 }
